@@ -70,9 +70,16 @@ def build(cmd, race=False):
     if key in _built:
         return out
     os.makedirs(BUILD, exist_ok=True)
+    repo = os.environ.get("VERIF_REPO", REPO)   # trial runs against a snapshot of the repository (vp run --with-repo)
     gosum = os.path.join(HARNESS, "go.sum")
-    shutil.copyfile(os.path.join(REPO, "go.sum"), gosum)
+    shutil.copyfile(os.path.join(repo, "go.sum"), gosum)
     args = ["go", "build", "-tags", "verif", "-o", out]
+    if repo != REPO:
+        alt = os.path.join(HARNESS, "go.alt.mod")
+        with open(alt, "w") as f:
+            f.write(open(os.path.join(HARNESS, "go.mod")).read().replace("=> /repo", "=> " + repo))
+        shutil.copyfile(gosum, os.path.join(HARNESS, "go.alt.sum"))
+        args += ["-modfile", alt]
     env = dict(GOENV)
     if race:
         args.insert(2, "-race")
